@@ -50,8 +50,25 @@ func setup(t ev.TB) bool {
 	return true
 }
 
+// config is the default generator configuration with the exclusion switches
+// of the findings that are still listed as known (a fixed finding turns its
+// switch off, so the formerly excluded programs are generated again).
+func config() gen.Config {
+	cfg := gen.DefaultConfig()
+	cfg.NoIncDecNarrow = ev.SwitchOn("c02IncDecNarrow")
+	cfg.NoLoopVarReuse = ev.SwitchOn("c02LoopVarScope")
+	cfg.NoBareBlocks = ev.SwitchOn("c02BareBlockScope")
+	cfg.NoPtrNilAssign = ev.SwitchOn("c02PointerNilAssign")
+	for sw, on := range map[string]bool{"c02IncDecNarrow": cfg.NoIncDecNarrow, "c02LoopVarScope": cfg.NoLoopVarReuse, "c02BareBlockScope": cfg.NoBareBlocks, "c02PointerNilAssign": cfg.NoPtrNilAssign} {
+		if on {
+			ev.Prune(sw)
+		}
+	}
+	return cfg
+}
+
 var nontrivialLabels = []string{"for-3clause", "for-cond", "for-infinite", "range-slice", "range-map", "early-exit", "store-through-pointer", "store-field-through-pointer",
-	"store-field-of-var", "slice-store", "map-insert", "map-delete", "append", "append-slice", "subslice", "closure", "conversion", "shadowing", "address-of-local", "struct-alloc", "recursion", "uint64put", "uint32put", "multi-assign"}
+	"store-field-of-var", "slice-store", "map-insert", "map-delete", "append", "append-slice", "subslice", "closure", "conversion", "shadowing", "address-of-local", "struct-alloc", "recursion", "uint64put", "uint32put", "multi-assign", "bare-block", "copy", "map-clear", "nested-field-store", "field-pointer", "slice-element-pointer"}
 
 var generatorBugs, programsRun int
 
@@ -127,7 +144,7 @@ func TestDifferential(t *testing.T) {
 		t.Skip("setup failed")
 	}
 	rapid.Check(t, func(t *rapid.T) {
-		p := gen.Generate(t, gen.DefaultConfig())
+		p := gen.Generate(t, config())
 		labels := map[string]bool{}
 		var ls []string
 		for l := range p.Features {
